@@ -20,7 +20,9 @@ impl Function {
     /// Add a constant and return its index
     pub fn add_constant(&mut self, value: Value) -> u16 {
         for (i, existing) in self.constants.iter().enumerate() {
-            if *existing == value {
+            // identical bits, not `==`: Value equality is numeric (100000 == 100000.0, 0.0 == -0.0),
+            // and merging such constants would load a value of the wrong type or sign
+            if existing.raw_bits() == value.raw_bits() {
                 return i as u16;
             }
         }
